@@ -7,7 +7,7 @@ import os, shutil, tempfile
 from mako.lookup import TemplateLookup
 from mako import exceptions
 
-d = tempfile.mkdtemp(dir="/tmp/hunt_c12_out/tmp")
+d = tempfile.mkdtemp()
 try:
     os.mkdir(os.path.join(d, "a"))
     outer = "outer 1\nouter 2\n<%include file=\"/a/b.html\"/>\n"
